@@ -7,6 +7,8 @@ is regenerated from `moveOutArrayDir` in the working tree on every run.
 import Martian.PostProcess
 import Proofs.PostProcess
 import Proofs.PostProcessWriter
+import Proofs.PostProcessShape
+import Proofs.PostProcessNames
 import Gen.Facts
 
 namespace Props.C13
@@ -110,18 +112,35 @@ theorem shape_leaf (ps outs : Path) (name : String) (v : J) (fs : FS) :
       ∃ s, (moveOutFile ps outs name v fs).1 = .str s :=
   moveOutFile_shape ps outs name v fs
 
-/-- One level of the recursion keeps the container's shape: an array stays an
-array of the same length; a typed map becomes an object whose keys are the
-sorted legal keys of the input; a (non-empty) struct value becomes an object
-whose keys are the sorted member ids — for ANY behaviour of the handlers below
-and any file system.
+/-- `shape_preserved`, full recursive statement.  For every type, member,
+value, outs directory and file system, the rewritten value has the shape of
+the input at that type (`Martian.PostProcess.Shape`, by recursion on the type):
+non-file values are equal; a file leaf is null, unchanged or a path string; an
+array (any number of dimensions) stays an array of the same length with
+elements related pointwise; a typed map becomes an object whose keys are the
+sorted legal keys of the input (illegal file names are dropped), values related
+key by key; a struct becomes an object whose keys are exactly the sorted member
+ids (an absent key reads as null, undeclared keys are dropped), values related
+member by member; null and ill-typed values are returned unchanged.
+Stated for the code as regenerated (`Gen.postProcessDimAware`, see `dim_aware`). -/
+theorem shape_preserved (ps : Path) (ty : Ty) (id on : String) (v : J) (outs : Path) (fs : FS) :
+    Shape ty v (moveOut Gen.postProcessDimAware ps ty id on v outs fs).1 := by
+  rw [dim_aware]
+  exact handler_shape ps ty id on v outs fs
 
-PARTIAL: the full `shape_preserved` (the recursive statement over the whole
-type, "same keys/lengths, non-file leaves unchanged, file leaves as in
-`shape_leaf`") is the composition of this theorem with `shape_leaf` and
-`shape_null_and_nonfile` along the type; see `Proofs.PostProcessShape` /
-`shape_preserved` below when present. -/
-theorem shape_level_partial (da : Bool) (h : Handler) (k : Nat) (xs : List J) (kvs : List (String × J))
+/-- what `Shape` says for `file[][]`: same lengths at both levels, leaves as in `shape_leaf` -/
+example : Shape (.arr (.file "") 1) (.arr [.arr [.str "/ps/a", .str "/ps/b"], .null])
+    (.arr [.arr [.str "/ps/outs/r/0/0", .null], .null]) := by
+  simp only [Shape, hasFile, if_true, ShapeArr]
+  refine ⟨_, rfl, .cons ⟨_, rfl, .cons (Or.inr (Or.inr ⟨_, rfl⟩)) (.cons (Or.inl rfl) .nil)⟩ (.cons ?_ .nil)⟩
+  rfl
+
+/-- One level of the recursion keeps the container's shape whatever the
+handlers below do (also true for the code before the F5 repair): an array stays
+an array of the same length; a typed map becomes an object whose keys are the
+sorted legal keys of the input; a non-empty struct value becomes an object
+whose keys are the sorted member ids. -/
+theorem shape_level (da : Bool) (h : Handler) (k : Nat) (xs : List J) (kvs : List (String × J))
     (kv : String × J) (hs : MemberHandlers) (o : Path) (fs : FS) :
     (∃ ys, (arrLevel da h k (.arr xs) o fs).1 = .arr ys ∧ ys.length = xs.length) ∧
     (∃ kvs', (mapLevel h (.obj kvs) o fs).1 = .obj kvs' ∧
@@ -129,6 +148,34 @@ theorem shape_level_partial (da : Bool) (h : Handler) (k : Nat) (xs : List J) (k
     (∃ kvs', (structLevel hs (.obj (kv :: kvs)) o fs).1 = .obj kvs' ∧
       kvs'.map Prod.fst = sortStrings (hs.map Prod.fst)) :=
   ⟨arrLevel_shape da h k xs o fs, mapLevel_keys h kvs o fs, structLevel_keys hs kv kvs o fs⟩
+
+/-! ### dest_injective (sibling level) -/
+
+/-- The children of one directory under outs/ get pairwise distinct names, and
+distinct names give disjoint sub-trees:
+(1) the zero-padded names of the elements of an array of length `n` are
+    distinct for distinct indices;
+(2) if the compile-time check `noDupNames` (the decidable mirror of
+    `StructType.compile`'s DuplicateNameError, compared with the real compiler
+    by the harness) accepts a member list, the output file names of its
+    file-typed members are pairwise distinct;
+(3) paths below `outs/n1` and `outs/n2` coincide only if `n1 = n2`.
+
+PARTIAL: the full `dest_injective` — "the destinations of all file leaves of
+one traversal are pairwise distinct" — is the induction of (1)–(3) along the
+type together with distinctness of the (sorted, de-duplicated) keys of a typed
+map and injectivity of `key ↦ key.ext`; that composition is not proved here. -/
+theorem dest_injective_partial :
+    (∀ n i j, i < n → j < n → pad (width n) i = pad (width n) j → i = j) ∧
+    (∀ ms, noDupNames ms [] = true → (memberNames ms).Nodup) ∧
+    (∀ (outs : Path) n1 n2 (s1 s2 : Path), (outs ++ [n1]) ++ s1 = (outs ++ [n2]) ++ s2 → n1 = n2) :=
+  ⟨array_names_distinct, fun ms h => (noDupNames_sound ms [] h).1, sibling_subtrees_disjoint⟩
+
+/-- non-vacuity / the check at work: `txt a` and `file b "help" "a.txt"` collide, `txt a` and `file a2` do not -/
+example : noDupNames [("a", "", .file "txt"), ("b", "a.txt", .file "")] [] = false ∧
+    noDupNames [("a", "", .file "txt"), ("a2", "", .file ""), ("n", "", .scalar)] [] = true := by decide
+
+example : pad (width 12) 3 = "03" ∧ pad (width 12) 11 = "11" := by decide
 
 /-! ### F5: multi-dimensional arrays (negative witness for the code before the repair) -/
 
